@@ -60,6 +60,8 @@ class Client(object):
             self.conn = self.sp.good(sync_timeout=SYNC)
             self.sock = self.conn._channel.stream.sock
             self.root = self.conn.root
+        elif self.mode == "mute":
+            self.sock = self.sp.raw(timeout=15, token=None)        # connected, never says a word: sits in the authenticator
         elif self.mode == "intruder":
             self.sock = self.sp.raw(timeout=15, token=[b"wrongTOK", b"rvTOKEN?", b"rvT", b"\x00"][self.idx % 4])
         else:
@@ -71,7 +73,7 @@ class Client(object):
     def call(self, rng):
         from rpyc.core import consts
         x = "c%d-%d" % (self.idx, rng.randrange(10 ** 6))
-        if self.mode == "intruder":
+        if self.mode in ("intruder", "mute"):
             return
         if self.mode == "good":
             got = self.conn.sync_request(consts.HANDLE_CALLATTR, self.root, "echo", (x,), ())
@@ -120,7 +122,7 @@ class Client(object):
         if not self.connected:
             return
         try:
-            if self.mode == "intruder":
+            if self.mode in ("intruder", "mute"):
                 if how == "rst":
                     rn.rst_close(self.sock)
                 else:
@@ -166,7 +168,7 @@ class Client(object):
     # ---- after close(): what does this client see?
     def eof_step(self, slice_s=0.05):
         """look (never write) for end-of-stream for at most slice_s. -> 'eof' | None"""
-        if self.mode == "raw":
+        if self.mode in ("raw", "mute"):
             r = rn.wait_eof(self.sock, slice_s)
             return "eof" if r[0] == "eof" else None
         if self.midcall and self.midcall["thread"].is_alive():
@@ -192,6 +194,8 @@ class Client(object):
     def probe_after_close(self):
         """positive evidence that the server still serves this client: -> 'answered' | 'eof' | 'silent'"""
         from rpyc.core import consts
+        if self.mode == "mute":
+            return "silent"
         if self.mode == "good":
             try:
                 self.conn._config["sync_request_timeout"] = 3
@@ -277,7 +281,15 @@ def run_history(sc, kind, unix, rng, hidx):
     slow = kind == "threadpool"
     # every fifth history: token authenticator, some phase-1 clients fail it and leave; every tenth: the authenticator hands
     # back another socket object than the one accepted (as the SSL authenticator does)
-    auth = ("rewrap" if (unix or hidx % 10 == 9) else True) if hidx % 5 == 4 else False
+    # every fifth history authenticates: plain token check / an authenticator that hands back ANOTHER socket object (as ssl
+    # wrapping does) / one that waits for the token without a time limit (a client may sit inside it when close() is called)
+    auth = False
+    if hidx % 5 >= 3:
+        ring = [True, "rewrap", "patient"]
+        first = {("threaded", False): ("patient", "rewrap"), ("threaded", True): ("rewrap", "patient"),
+                 ("threadpool", False): ("patient", True), ("threadpool", True): ("rewrap", "patient"),
+                 ("forking", False): (True, "rewrap"), ("forking", True): ("rewrap", True)}.get((kind, unix), (True, "rewrap"))[hidx % 5 - 3]
+        auth = ring[(ring.index(first) + hidx // 5) % 3]
     try:
         sp = rn.ServerProc(kind, unix=unix, auth=auth)
     except rn.ChildError as e:
@@ -336,6 +348,16 @@ def run_history(sc, kind, unix, rng, hidx):
                         c.leave(fate[5:])
         if any(f == "midcall" for _, f in plan2):
             time.sleep(0.3)                  # let the sleep requests reach their handlers (0.1 s poll on the thread pool)
+        if auth == "patient" and kind != "forking":
+            # last to connect (a thread pool authenticates in its accept thread): a client that is still inside the
+            # authenticator when close() is called
+            m = Client(sp, "mute", 100 + n2)
+            m.connect()
+            c2.append(m)
+            clients.append(m)
+            plan2.append(("mute", "idle"))
+            sc.count("closes_with_a_client_inside_the_authenticator")
+            time.sleep(0.3)
         stayers = [c for c in c2 if c.connected]
         wit["phase2"] = plan2
         for c in c2:
@@ -432,6 +454,10 @@ def judge_eof(sc, sp, kind, stayers, t_closed, wit):
                 evidence = None
                 if probed[c] == "answered":
                     evidence = "a new request on that connection was answered after close() had returned"
+                elif c.mode == "mute" and st.get("socket_fds", 0) > 0 and st.get("listener_fd", -1) == -1:
+                    evidence = ("it was inside the authenticator when close() was called; close() has returned, the listener is gone, "
+                                "the server's tables hold %d entries, yet the server process still has %d socket descriptor(s) open "
+                                "(threads: %s)" % (tables, st["socket_fds"], [t for t in st["threads"] if not t.startswith("rv-")]))
                 elif tables and not busy:
                     evidence = ("its connection is still in the server's tables (clients=%d, fd_to_conn=%s) and no server thread is "
                                 "left to end it" % (st["clients"], st.get("fd_to_conn")))
